@@ -16,7 +16,7 @@
    correspondence and the oracle (one client), and then falls under C01/C02/C03/C05. *)
 From stdpp Require Import gmap list.
 From Coq Require Import NArith.
-From BS Require Import Abs.Promotion Abs.PromotionProofs.
+From BS Require Import Abs.Promotion Abs.PromotionProofs Abs.PromotionMeasure Abs.PromotionAllN.
 Local Open Scope N_scope.
 
 (* ONE client: whatever the interleaving, the hand-over terminates (a measure drops with every
@@ -74,8 +74,28 @@ Theorem C07_three_clients_promotion :
     /\ (exists tr' s', all_internal tr' /\ run s tr' = Some s' /\ stable s' /\ session_ok s' 1 /\ promotion_outcome s' 1).
 Proof. exact PromotionProofs.C07_three_clients_promotion. Qed.
 
-(* the full statement, for up to three clients and any choice of the promoted client with two;
-   for EVERY number of clients the safety half: at every point of every run at most the old host and
+(* ANY number of clients, ANY choice of the promoted client (Abs/PromotionMeasure.v, Abs/PromotionAllN.v:
+   a progress invariant over the phases of the hand-over, proved by induction over the events, no
+   exploration): whatever the interleaving, the hand-over terminates (the measure drops with every
+   event), every run that cannot be continued is the goal state -- exactly the promoted peer hosts,
+   all n other peers (the former host included) are in its client table and are nothing but its
+   connected clients with a live link and clear flags, no traffic --, a run that can be continued has
+   an event that makes progress, and every run can be completed to the goal state *)
+Theorem C07_any_number_of_clients :
+  forall n k, k ∈ client_ids n ->
+  forall tr s, all_internal tr -> run (promoted n k) tr = Some s ->
+    (length tr + measure s <= measure (promoted n k))%nat
+    /\ (stable s -> session_ok s k /\ promotion_outcome s k /\ length (pget clients [] s k) = n)
+    /\ (~ stable s -> exists e s', internal e = true /\ step s e = Some s' /\ (measure s' < measure s)%nat)
+    /\ (exists tr' s', all_internal tr' /\ run s tr' = Some s' /\ stable s' /\ session_ok s' k /\ promotion_outcome s' k).
+Proof. exact PromotionAllN.C07_all_n_promotion. Qed.
+
+Theorem C07_full_statement_for_all : forall n k, k ∈ client_ids n -> C07_statement n k.
+Proof. exact PromotionAllN.C07_all_n. Qed.
+
+(* the instances with up to three clients were first obtained by exhaustive exploration (kept: they
+   cross-check the invariant); for EVERY number of clients the safety half: at every point of every
+   run at most the old host and
    the promoted peer host, every other client is still an ordinary client of the old host or has
    moved to the new one with a fresh RenetClient that is never dead, its flags never set, and the
    old host — while it still has its server after handling NewHost — is closing *)
@@ -115,5 +135,7 @@ Print Assumptions C07_promoted_host_keeps_hosting.
 Print Assumptions C07_two_clients_promotion.
 Print Assumptions C07_three_clients_promotion.
 Print Assumptions C07_up_to_three_clients_and_safety_for_all.
+Print Assumptions C07_any_number_of_clients.
+Print Assumptions C07_full_statement_for_all.
 Print Assumptions C07_chain.
 Print Assumptions C07_chain_forever.
